@@ -45,6 +45,9 @@ EXTENDS Integers, Sequences, FiniteSets, TLC
 CONSTANTS Users,          \* externally owned accounts (strings)
           Contracts,      \* scripted contracts (strings)
           Ghosts,         \* contract addresses without code
+          HxTwins,        \* account-form (hx) addresses whose 20-byte id is the id of a contract account
+          CxTwins,        \* contract-form (cx) addresses whose id is the id of a user account
+                          \* (twins are addresses, not accounts: they have no balance of their own)
           Hangers,        \* contracts whose (asynchronous) handler never answers: a call to them ends
                           \* with the transaction timeout
           Keys,           \* storage keys
@@ -56,6 +59,7 @@ CONSTANTS Users,          \* externally owned accounts (strings)
 
 Treasury == "t"
 Payees == Users \cup {Treasury}                 \* accounts a plain transfer may credit
+WrongForm == HxTwins \cup CxTwins
 Accts == Users \cup Contracts \cup Ghosts \cup Hangers \cup {Treasury}
 
 VARIABLES w,       \* world: [bal |-> [Accts -> Int], st |-> [Contracts -> [Keys -> Int]]]
@@ -124,7 +128,9 @@ Move(f, from, to, n) == [f EXCEPT !.bal = [@ EXCEPT ![from] = @ - n, ![to] = f.b
 \*  - a contract sending a positive value emits the ICXTransfer event log
 Transfer(f, from, to, n) ==
   IF f.bal[from] < n THEN [ok |-> FALSE, f |-> f]
-  ELSE IF to \in Ghosts THEN [ok |-> FALSE, f |-> [f EXCEPT !.bal[from] = @ - n]]
+  \* recipient of the wrong kind (cx address without contract account, hx address of a contract
+  \* account, cx address of a user account): "InvalidAddress" after the sender was debited
+  ELSE IF to \in Ghosts \cup WrongForm THEN [ok |-> FALSE, f |-> [f EXCEPT !.bal[from] = @ - n]]
   ELSE LET g == IF from = to THEN f ELSE [f EXCEPT !.bal = [@ EXCEPT ![from] = @ - n, ![to] = @ + n]]
        IN [ok |-> TRUE, f |-> IF from \in Contracts /\ n > 0 THEN [g EXCEPT !.logs = @ + 1] ELSE g]
 
@@ -134,7 +140,7 @@ RECURSIVE RunOps(_, _, _, _), Invoke(_, _, _, _, _, _, _)
    transfer to a contract).  Result [ok, f]. *)
 Invoke(f, from, to, val, prog, origin, pay) ==
   LET t == IF pay THEN Transfer(f, from, to, val) ELSE [ok |-> TRUE, f |-> f] IN
-  IF ~t.ok \/ to \in Ghosts
+  IF ~t.ok \/ to \in Ghosts \cup CxTwins
   THEN \* the handler fails before the contract runs: the call step is charged by the handler
        [ok |-> FALSE, f |-> ChargeSilently(t.f, CallCost)]
   ELSE LET c == Charge(t.f, CallCost) IN          \* the contract's own entry charge
@@ -178,7 +184,7 @@ Frame0(ww, lim, exact, orc) ==
 \* the handler of the first frame (cm.GetHandler): users get the TransferHandler, contracts
 \* TransferAndCallHandler (plain transfer, or call with value) or CallHandler
 TopHandler(f, tx) ==
-  IF tx.to \in Payees THEN Transfer(f, tx.from, tx.to, tx.value)
+  IF tx.to \in Payees \cup HxTwins THEN Transfer(f, tx.from, tx.to, tx.value)   \* account-form address: TransferHandler
   ELSE Invoke(f, tx.from, tx.to, tx.value, tx.prog, tx.from, tx.kind # "call" \/ tx.value > 0)
 
 \* transactionHandler.checkBalance
